@@ -632,8 +632,8 @@ MODEL_READY = True
 
 
 def request(case):
-    """the model decides the validators (error class) and, for accepted inputs, nothing more is compared here: the
-    expression-valued part of Algorithms 2/3 is parametric in the `ctf`/`tian` families' models"""
+    """the model decides the complete procedure: validator verdict (error category), and for accepted inputs FAIL /
+    Zero / the expression and the returned event of Algorithm 2 (`transport ctf_uncond`) resp. Algorithm 3 (`ctftr cond`)"""
     if not MODEL_READY:
         return None
     mal = case.get("malformed")
@@ -652,7 +652,7 @@ def request(case):
                      d["policy"]])
     if case["kind"] == "uncond":
         return C.enc(["transport", "ctf_uncond", gs, doms, case["event"]])
-    return C.enc(["transport", "ctf_validate_c", gs, doms, case["outcomes"], case["conditions"]])
+    return C.enc(["ctftr", "cond", gs, doms, case["outcomes"], case["conditions"]])
 
 
 class _Out(list):
@@ -693,7 +693,13 @@ class _Out(list):
 
 def canon_model(case, rep):
     if case["kind"] == "cond":
-        return _Out(["valid-only", "invalid" if (rep[0] == "err" and rep[1] == "invalid") else "accepted"])
+        # (ok <order-sensitive> <answer>): the answer of the complete Algorithm 3
+        order_sensitive, rep = rep[1] == "true", rep[2]
+        if order_sensitive:
+            # the verdict of Algorithm 3's final checks depends on which of two entries of a Python dict comprehension
+            # over a set-ordered list wins (CtfTr.finalChecksOrderSensitive): only the validator's verdict is compared
+            _Out.stats["order_sensitive"] = _Out.stats.get("order_sensitive", 0) + 1
+            return _Out(["valid-only", "invalid" if (rep[0] == "err" and rep[1] == "invalid") else "accepted"])
     if rep[0] == "err":
         return _Out(["err", "invalid" if rep[1] == "invalid" else "internal"])
     if rep[0] == "fail":
